@@ -41,6 +41,7 @@ pub fn run_line(line: &str, scratch: &str) -> String {
         "build" => by_width!(c, op_build, scratch),
         "hist" => by_width!(c, op_hist, scratch),
         "skf" => by_width!(c, op_skf, scratch),
+        "bam" => by_width!(c, op_bam, scratch),
         "mkskf" => by_width!(c, op_mkskf),
         "lo_cmd" => op_lo_cmd(c),
         "lo_comp" => op_lo_comp(c),
@@ -885,4 +886,24 @@ fn op_lo_graph<IntT: for<'a> UInt<'a>>(c: &Case) -> String {
 fn op_mkskf<IntT: for<'a> UInt<'a>>(c: &Case) -> String {
     make_array::<IntT>(c.usize("k"), c.flag("rc"), c.get("table")).save(c.get("out")).unwrap();
     "ok".into()
+}
+
+/// `bam`: build_and_merge with a thread count (initialises the global pool when threads > 1:
+/// at most one such call per process), result as a table
+fn op_bam<IntT: for<'a> UInt<'a>>(c: &Case, scratch: &str) -> String {
+    let dir = format!("{scratch}/bam");
+    let _ = std::fs::remove_dir_all(&dir);
+    std::fs::create_dir_all(&dir).unwrap();
+    let mut inputs: Vec<(String, String, Option<String>)> = Vec::new();
+    for (i, smp) in c.get("samples").split('|').enumerate() {
+        let recs: Vec<&str> = smp.split('+').collect();
+        let p = format!("{dir}/s{i}.fa");
+        write_fasta(&p, &recs, "q");
+        inputs.push((format!("s{i}"), p, None));
+    }
+    let qual = QualOpts { min_count: 1, min_qual: 0, qual_filter: QualFilter::NoFilter };
+    let d = build_and_merge::<IntT>(&inputs, c.usize("k"), c.flag("rc"), &qual, c.usize("threads"), None);
+    let a = MergeSkaArray::new(&d);
+    let _ = std::fs::remove_dir_all(&dir);
+    dump_array(&a)
 }
